@@ -101,7 +101,8 @@ def ob_read_loop(ex, short_reads=2):
         R("Bytes::new", lambda ex2, s, fr, c, a, d, r: VStruct("ByteBuf", [VInt(z3.IntVal(0), "usize"), VInt(z3.IntVal(0), "usize")]))
         R("File::open", lambda ex2, s, fr, c, a, d, r: ok(VOpaque("file", 0)))
         fn = find_fn(ex, "::read_blob_range", "cas_manager")
-        mgr = VStruct("CasManager", [VStruct("DbPaths", [VOpaque("dbpaths")]), VBool(True)])
+        from structs import mk
+        mgr = mk(ex, st, "CasManager", paths=VStruct("DbPaths", [VOpaque("dbpaths")]), dir_tree_is_pre_created=VBool(True))
         old_lb = ex.loop_bound
         ex.loop_bound = short_reads + 3
         try:
